@@ -156,7 +156,63 @@ pub fn entries() -> Vec<Entry> {
             [a.as_slice(), b.as_slice()].concat()
         }),
     ];
+    #[allow(unused_mut)]
+    let mut v = v;
+    #[cfg(feature = "nightly")]
+    v.extend(nightly_entries());
     v
+}
+
+/// randomised entry points that only exist with protected memory (nightly build)
+#[cfg(feature = "nightly")]
+fn nightly_entries() -> Vec<Entry> {
+    use dryoc::protected::*;
+    type HA<const N: usize> = HeapByteArray<N>;
+    vec![
+        ("HeapByteArray<32>::gen", || HA::<32>::gen().as_slice().to_vec()),
+        ("HeapByteArray<32>::gen_locked", || HA::<32>::gen_locked().unwrap().as_slice().to_vec()),
+        ("HeapByteArray<32>::gen_readonly_locked", || HA::<32>::gen_readonly_locked().unwrap().as_slice().to_vec()),
+        ("HeapByteArray<24>::gen_locked (nonce)", || HA::<24>::gen_locked().unwrap().as_slice().to_vec()),
+        ("Locked<HeapByteArray<32>>::gen (NewByteArray)", || <Locked<HA<32>> as NewByteArray<32>>::gen().as_slice().to_vec()),
+        ("KeyPair::gen_locked_keypair", || {
+            let k = KeyPair::<Locked<HA<32>>, Locked<HA<32>>>::gen_locked_keypair().unwrap();
+            [k.public_key.as_slice(), k.secret_key.as_slice()].concat()
+        }),
+        ("KeyPair::gen_readonly_locked_keypair", || {
+            let k = KeyPair::<LockedRO<HA<32>>, LockedRO<HA<32>>>::gen_readonly_locked_keypair().unwrap();
+            [k.public_key.as_slice(), k.secret_key.as_slice()].concat()
+        }),
+        ("KeyPair<Heap,Heap>::gen", || {
+            let k: KeyPair<HA<32>, HA<32>> = KeyPair::gen();
+            [k.public_key.as_slice(), k.secret_key.as_slice()].concat()
+        }),
+        ("SigningKeyPair::gen_locked_keypair", || {
+            let k = SigningKeyPair::<Locked<HA<32>>, Locked<HA<64>>>::gen_locked_keypair().unwrap();
+            [k.public_key.as_slice(), &k.secret_key.as_slice()[..32]].concat()
+        }),
+        ("SigningKeyPair::gen_readonly_locked_keypair", || {
+            let k = SigningKeyPair::<LockedRO<HA<32>>, LockedRO<HA<64>>>::gen_readonly_locked_keypair().unwrap();
+            [k.public_key.as_slice(), &k.secret_key.as_slice()[..32]].concat()
+        }),
+        ("LockedKdf::gen(key||context)", || {
+            let k: dryoc::kdf::protected::LockedKdf = dryoc::kdf::Kdf::gen();
+            let (a, b) = k.into_parts();
+            [a.as_slice(), b.as_slice()].concat()
+        }),
+        ("LockedPwHash::hash(salt)", || {
+            let h: dryoc::pwhash::protected::LockedPwHash = PwHash::hash(&b"pw".to_vec(), Config::interactive().with_opslimit(1).with_memlimit(8192)).unwrap();
+            h.into_parts().1.as_slice().to_vec()
+        }),
+        ("DryocStream::init_push(Locked header)", || {
+            let (_s, h): (_, Locked<HA<24>>) = DryocStream::init_push(&[3u8; 32]);
+            h.as_slice().to_vec()
+        }),
+        ("DryocBox::seal[locked](ephemeral pk)", || {
+            let pk = sodium::scalarmult_base(&[7u8; 32]);
+            let b: dryoc::dryocbox::protected::LockedBox = DryocBox::seal(b"abc", &pk).unwrap();
+            b.to_vec()[..32].to_vec()
+        }),
+    ]
 }
 
 /// expected number of non-test call sites per file (copy_randombytes( | randombytes_buf( | ::gen())
@@ -308,9 +364,12 @@ pub fn run() -> i32 {
     for i in 0..es.len() {
         hist.push((format!("single:{}", es[i].0), vec![i; n]));
     }
+    // locked-container entry points cost several mlock calls each: they are paired with the hub
+    // and with each other, not with all of the others
+    let slow = |i: usize| es[i].0.contains("ocked");
     for a in 0..es.len() {
         for b in 0..es.len() {
-            if a != b {
+            if a != b && (!(slow(a) || slow(b)) || (slow(a) && slow(b)) || a == 2 || b == 2) {
                 hist.push((format!("pair:{}|{}", es[a].0, es[b].0), vec![a, b, a, b, a, b]));
             }
         }
